@@ -89,7 +89,9 @@ package sourcebundle
 //@   defines def.sorted: r == sortedVersionsOf(modPackageInfos)
 
 // Resolving a registry source: version selection, caches, deprecation notes, trace events.
-//@ macro pkgVerKey(P, V): skolemKey(P, V)
+//@ macro selKey(P, V): mkstruct("sourcebundle.registryPackageVersion", P, V)
+//@ macro builderOpen(B): B != nil && B.analyzed != nil && B.remotePackageDirs != nil && B.remotePackageMeta != nil && B.resolvedRegistry != nil
+//@     && B.packageVersionDeprecations != nil && B.registryPackageVersions != nil
 //@ func (*Builder).findRegistryPackageSource -> (r, err)
 //@   sweep
 //@   requires pre.b: b != nil && b.registryPackageVersions != nil && b.resolvedRegistry != nil && b.packageVersionDeprecations != nil
@@ -105,9 +107,13 @@ package sourcebundle
 //@   ensures C17.find.none-allowed: $selCalled && $selected == versions.Unspecified ==> err != nil
 //@   at-call invoke github.com/hashicorp/go-slug/sourcebundle.RegistryClient.ModulePackageVersions C14.find.versions-once: !mapHas(b.registryPackageVersions, sourceAddr.pkg)
 //@   at-call invoke github.com/hashicorp/go-slug/sourcebundle.RegistryClient.ModulePackageSourceAddr C14.find.source-once: !mapHas(b.resolvedRegistry, pkgVer)
-//@   ensures C14.find.cached-after: err == nil ==> mapHas(b.registryPackageVersions, sourceAddr.pkg) && mapHas(b.resolvedRegistry, pkgVer)
-//@   ensures C17,C08.find.result: err == nil ==> pkgVer.pkg == sourceAddr.pkg && pkgVer.version == $selected && $selected != versions.Unspecified
-//@       && r.pkg == b.resolvedRegistry[pkgVer].pkg && r.subPath == ite(Join(b.resolvedRegistry[pkgVer].subPath, sourceAddr.subPath) == ".", "", Join(b.resolvedRegistry[pkgVer].subPath, sourceAddr.subPath))
+//@   ensures C14.find.cached-after: err == nil ==> mapHas(b.registryPackageVersions, sourceAddr.pkg) && mapHas(b.resolvedRegistry, selKey(sourceAddr.pkg, $selected))
+//@   ensures-local C17.find.key: err == nil ==> pkgVer == selKey(sourceAddr.pkg, $selected)
+//@   ensures C17,C08.find.result: err == nil ==> $selected != versions.Unspecified
+//@       && r.pkg == b.resolvedRegistry[selKey(sourceAddr.pkg, $selected)].pkg
+//@       && r.subPath == ite(Join(b.resolvedRegistry[selKey(sourceAddr.pkg, $selected)].subPath, sourceAddr.subPath) == ".", "", Join(b.resolvedRegistry[selKey(sourceAddr.pkg, $selected)].subPath, sourceAddr.subPath))
+//@   ensures C08.find.frame: b.pendingRemote == old(b.pendingRemote) && b.pendingRegistry == old(b.pendingRegistry) && b.targetDir == old(b.targetDir) && b.analyzed == old(b.analyzed)
+//@       && b.remotePackageDirs == old(b.remotePackageDirs) && b.registryPackageVersions == old(b.registryPackageVersions) && b.resolvedRegistry == old(b.resolvedRegistry) && b.packageVersionDeprecations == old(b.packageVersionDeprecations) && b.remotePackageMeta == old(b.remotePackageMeta)
 //@   ensures C14.find.bracket: $evStart == $evEnd
 //@   invariant loop1 C17.find.deprecation.inv: versionDeprecation == nil && rangeindex < len(availablePackageInfos)
 //@       && (0 <= anyIndex && anyIndex <= rangeindex ==> !sameVersion(selectedVersion, availablePackageInfos[anyIndex].Version))
@@ -141,8 +147,32 @@ package sourcebundle
 //@   ensures C14.ensure.cached-after: err == nil ==> mapHas(b.remotePackageDirs, pkgAddr) && localDir == b.remotePackageDirs[pkgAddr]
 //@   ensures C14.ensure.already: old(mapHas(b.remotePackageDirs, pkgAddr)) ==> err == nil && $nFetch == 0 && $evAlready == 1 && $evStart == 0 && localDir == old(b.remotePackageDirs[pkgAddr])
 //@   ensures C14.ensure.bracket: $evStart == $evEnd
+//@   ensures C08.ensure.frame: b.pendingRemote == old(b.pendingRemote) && b.pendingRegistry == old(b.pendingRegistry) && b.targetDir == old(b.targetDir) && b.analyzed == old(b.analyzed)
+//@       && b.remotePackageDirs == old(b.remotePackageDirs) && b.registryPackageVersions == old(b.registryPackageVersions) && b.resolvedRegistry == old(b.resolvedRegistry) && b.packageVersionDeprecations == old(b.packageVersionDeprecations) && b.remotePackageMeta == old(b.remotePackageMeta)
 //@   ensures C14.ensure.fetched-once: !old(mapHas(b.remotePackageDirs, pkgAddr)) && err == nil ==> $nFetch == 1 && $evStart == 1
-//@   ensures C10.ensure.no-temp-left: err == nil && !old(mapHas(b.remotePackageDirs, pkgAddr)) ==> ($lastRemoved == workDir || $lastRenamedFrom == workDir) && workDir != ""
-//@   ensures C10,C13.ensure.dirname-is-content-hash: err == nil && !old(mapHas(b.remotePackageDirs, pkgAddr)) ==> localDir == b64UrlOfStd(trimPrefix(hashDirOf(workDir), "h1:")) && safeSeg(localDir)
-//@   ensures C10.ensure.final-dir: err == nil && $lastRenamedFrom == workDir && !old(mapHas(b.remotePackageDirs, pkgAddr)) ==> $lastRenamedTo == Join(b.targetDir, localDir)
+//@   ensures-local C10.ensure.no-temp-left: err == nil && !old(mapHas(b.remotePackageDirs, pkgAddr)) ==> ($lastRemoved == workDir || $lastRenamedFrom == workDir) && workDir != ""
+//@   ensures-local C10,C13.ensure.dirname-is-content-hash: err == nil && !old(mapHas(b.remotePackageDirs, pkgAddr)) ==> localDir == b64UrlOfStd(trimPrefix(hashDirOf(workDir), "h1:")) && safeSeg(localDir)
+//@   ensures-local C10.ensure.final-dir: err == nil && $lastRenamedFrom == workDir && !old(mapHas(b.remotePackageDirs, pkgAddr)) ==> $lastRenamedTo == Join(b.targetDir, localDir)
 //@   ensures-local C08.ensure.meta-stored: err == nil && !old(mapHas(b.remotePackageDirs, pkgAddr)) && response.PackageMeta != nil ==> b.remotePackageMeta[pkgAddr] == response.PackageMeta
+
+//@ func (Diagnostics).HasErrors -> (r)
+//@   pure
+//@   defines def.haserrors: r == hasErrorsOf(diags)
+
+// The queue-draining loop of the builder.
+//@ func (*Builder).resolvePending -> (diags)
+//@   requires pre.b: builderOpen(b) && isAbs(b.targetDir) && Clean(b.targetDir) == b.targetDir
+//@   frame-at-call invoke github.com/hashicorp/go-slug/sourcebundle.DependencyFinder.FindDependencies: b.pendingRemote, b.pendingRegistry, diags
+//@   invariant loop1 C08.resolve.inv.outer: builderOpen(b) && isAbs(b.targetDir) && Clean(b.targetDir) == b.targetDir
+//@   invariant loop2 C08.resolve.inv.registry: builderOpen(b) && isAbs(b.targetDir) && Clean(b.targetDir) == b.targetDir
+//@   invariant loop3 C08.resolve.inv.remote: builderOpen(b) && isAbs(b.targetDir) && Clean(b.targetDir) == b.targetDir
+//@   ghost $nAnalyze Int = 0
+//@   ghost $tracedDiags Slice = nil
+//@   ensures C08,C12.resolve.drained: len(b.pendingRemote) == 0 && len(b.pendingRegistry) == 0
+//@   ensures C12.resolve.poison: hasErrorsOf(diags) ==> b.targetDir == ""
+//@   at-call append#1 C12.resolve.registry-failure-becomes-diag: dyntype(a1, "*sourcebundle.internalDiagnostic") && unbox(a1, "*sourcebundle.internalDiagnostic").severity == DiagError
+//@   at-call append#3 C12.resolve.install-failure-becomes-diag: dyntype(a1, "*sourcebundle.internalDiagnostic") && unbox(a1, "*sourcebundle.internalDiagnostic").severity == DiagError
+//@   at-call append#2 C08.resolve.registry-hop: a1.sourceAddr == realSource && a1.depFinder == next.depFinder
+//@   at-call invoke github.com/hashicorp/go-slug/sourcebundle.DependencyFinder.FindDependencies C14.resolve.analyse-once: !mapHas(b.analyzed, artifact) && artifact.sourceAddr == next__2.sourceAddr && artifact.depFinder == next__2.depFinder
+//@   at-call invoke github.com/hashicorp/go-slug/sourcebundle.DependencyFinder.FindDependencies C08.resolve.analyse-in-package: a2 == next__2.sourceAddr.subPath && a3 != nil && a3.baseAddr == next__2.sourceAddr
+//@   at-call dynamic field sourcebundle.BuildTracer.Diagnostics C12.resolve.finder-diags-traced: a1 == moreDiags && len(moreDiags) != 0
